@@ -115,16 +115,14 @@ Theorem C09_lex_render : forall ts, Forall wf_token ts -> lex (render ts) = ts.
 Proof. exact lex_render. Qed.
 Print Assumptions C09_lex_render.
 
-(* ... and the tokens of every in-range drawing request are well-formed, so the VT fed with
-   the rendered BYTES (through the lexer) is in the state the token-level theorems describe.
-   (For the SGR tokens of pen changes this step is not proved; there the tie is the
-   correspondence check, whose oracle lexes the implementation's bytes.) *)
-Theorem C09_drawing_bytes : forall t q v t' ret ts, in_range q v ->
-  match q with RChpen _ | RSetpen _ => False | _ => True end ->
+(* ... and the tokens of every in-range request (pen changes included) are well-formed, so the
+   VT fed with the rendered BYTES, through the lexer, is in the state the token-level theorems
+   describe *)
+Theorem C09_bytes : forall t q v t' ret ts, in_range q v -> req_pen_ok q -> pen_in_range (t_pen t) ->
   drv_req t q = Some (t', ret, ts) ->
-  vt_run_bytes (render ts) v = vt_run ts v.
-Proof. exact drawing_bytes. Qed.
-Print Assumptions C09_drawing_bytes.
+  Forall wf_token ts /\ vt_run_bytes (render ts) v = vt_run ts v.
+Proof. exact req_bytes_wf. Qed.
+Print Assumptions C09_bytes.
 
 (* non-vacuity: a 4x5 patterned screen, a DECSLRM-capable driver; scrolling the 2x3 rectangle
    at (1,1) by (1,-1) is in range, succeeds with a non-empty token list, and the cell at (1,2)
